@@ -12,6 +12,8 @@ import (
 	"strings"
 	"unicode/utf8"
 
+	"github.com/PapaCharlie/go-restli/v2/restlicodec"
+
 	"verifgen/hx"
 )
 
@@ -1187,6 +1189,63 @@ func runC03(cfg *hx.Config) {
 			{K: "arr"}, nil, nil}}, "plus", true, sz, r, rep, sh)
 		runConform("U", &Val{K: "union", Fields: []*Val{nil, str(sp), nil, nil, nil}}, "plus", true, sz, r, rep, sh)
 		runConform("U", &Val{K: "union", Fields: []*Val{nil, nil, nil, {K: "arr", Items: []*Val{str(sp), str("b c")}}, nil}}, "plus", true, sz, r, rep, sh)
+	}
+	// writers constructed WITH excluded fields (request bodies of create / update with read-only paths): whatever is excluded - a
+	// few members, every member of some object, whole subtrees - the emitted document is well-formed in its format (which values
+	// are omitted is C07's business; that the bytes are a document at all is this property's)
+	rx := hx.NewRand(cfg.Seed ^ 0xE7C1)
+	for _, tname := range recordTops {
+		t := ref(tname)
+		for i := 0; i < sz.perType/3+4; i++ {
+			v := schema.gen(rx, t, genOpts{utf8: true, depth: 1 + rx.Intn(3)})
+			if !schema.valid(t, v) {
+				continue
+			}
+			base := schema.refEncode(t, v)
+			paths := schema.randomPaths(rx, t, base)
+			if len(paths) == 0 {
+				continue
+			}
+			var specs [][]string
+			specs = append(specs, []string{paths[rx.Intn(len(paths))]})
+			// every member of one object excluded: all key paths sharing the parent of a random path
+			pick := paths[rx.Intn(len(paths))]
+			parent := ""
+			if k := strings.LastIndex(pick, "/"); k >= 0 {
+				parent = pick[:k+1]
+			}
+			var sibs []string
+			for _, segs := range keyPaths(base) {
+				q := strings.Join(segs, "/")
+				if strings.HasPrefix(q, parent) && !strings.Contains(q[len(parent):], "/") {
+					sibs = append(sibs, q)
+				}
+			}
+			if len(sibs) > 0 && wellFormedDirectives(sibs) {
+				specs = append(specs, sibs)
+			}
+			ptr := reflect.New(registry[tname])
+			schema.toGo(t, v, ptr.Elem())
+			for _, ds := range specs {
+				spec := restlicodec.NewPathSpec(ds...)
+				for _, f := range []int{0, 1, 2, 3} {
+					out, oc := encode(ptr, f, spec)
+					rep.Evaluations++
+					rep.Count("excluded-fields-writer")
+					if oc.Class != "ok" {
+						continue
+					}
+					cd := map[string]interface{}{"direction": "forward-with-exclusion", "type": tname, "format": formats[f], "spec": ds, "value": v.fixJSON(), "out": out}
+					if f <= 1 {
+						if _, what := strictJSON(out); what != "" {
+							rep.Fail("conform:excluded-writer:malformed-json", "a writer with excluded fields emitted a document that is not well-formed JSON", "v2/restlicodec/writer.go:WriteMap", cd, what)
+						}
+					} else if _, what, detail, _ := refParseROR2(out, f); what != "" {
+						rep.Fail("conform:excluded-writer:malformed-ror2", "a writer with excluded fields emitted a document outside the ROR2 grammar", "v2/restlicodec/writer.go:WriteMap", cd, what+" "+detail)
+					}
+				}
+			}
+		}
 	}
 	runEnvelopes(sz.envelopes, rEnv, rep)
 	checkProtocolHeaders(rep)
